@@ -76,7 +76,7 @@ func init() {
 	run.Props["C18"] = &run.PropSpec{ID: "C18", Level: "fault_enumeration",
 		Rule:     "one evaluation = one block driven through FinalizeBlock+Commit (error / recovered panic recorded by the driver); distinct = (height, AppHash) pairs; base histories x enumerated fault schedules (oracle outages, block-time gaps, parameter-edge governance)",
 		Monitors: func() []mon.Monitor { return []mon.Monitor{mon.NewC18(), mon.NewC18Twin()} },
-		Plan:     plan([]run.PlanItem{pi("faults", 24), pi("rewards", 2), pi("mix", 2), pi("commit-life", 2)}, []run.PlanItem{pi("faults", 72), pi("rewards", 12), pi("mix", 12), pi("commit-life", 12), pi("forced", 8), pi("orders", 8)}),
+		Plan:     plan([]run.PlanItem{pi("faults", 24), pi("rewards", 2), pi("mix", 2), pi("commit-life", 2), pi("empty-pools", 3)}, []run.PlanItem{pi("faults", 72), pi("rewards", 12), pi("mix", 12), pi("commit-life", 12), pi("forced", 8), pi("orders", 8), pi("empty-pools", 6)}),
 		Assume:   []string{boundsAssume}}
 	run.Props["C19"] = &run.PropSpec{ID: "C19", Level: "fault_enumeration",
 		Rule:     "one evaluation = one (replica, block) comparison of AppHash + every tx result (code, data, gas, log, events) + block events as a multiset against the primary; replicas: un-probed plain, restarted after every height, crashed between FinalizeBlock and Commit at every height; plus (scenario crash-kill) a separate replaying process over an on-disk LevelDB killed with SIGKILL at arbitrary moments and restarted until it reaches the end: every hash it reports and the height / hash it restarts at are compared with the primary; thorough tier also the race-detector build under concurrent CheckTx / Query; distinct = (replica, height, AppHash)",
